@@ -53,10 +53,10 @@ mod imp {
     };
     pub use std::thread::{spawn, JoinHandle};
 
+    /// extra scheduling points are only needed under shuttle (for code that uses core atomics
+    /// directly); Miri preempts on its own
     #[inline]
-    pub fn pause() {
-        std::thread::yield_now();
-    }
+    pub fn pause() {}
 
     #[inline]
     pub fn spin() {
